@@ -23,11 +23,11 @@ CLAIMED = {
          "split, chunks, join and fork metadata (= every instant of every schedule) is symbolic under the phase invariant; a recording fake job "
          "manager is the observer. Asserted: chunk jobs only after split complete, join only after all chunks complete, a node submits only "
          "when running and enters running only when producer, disabling source and every enclosing preflight are done.",
-         "Trusted: go/ssa, symgo, z3; the OS-boundary and AST/JSON stubs listed in the evidence (each returns an arbitrary outcome within its contract); the assumed representation invariant PhaseInv; the hand-built graph (one fork per node, <=2 chunks, P{PRE,A,C,Q{R{B}}}). Outside: prenode construction from bindings, dynamic fork expansion, real processes and job-manager queues.", "DESIGN.md §4 (C02)"),
+         "Trusted: go/ssa, symgo, z3; the OS-boundary and AST/JSON stubs listed in the evidence (each returns an arbitrary outcome within its contract); the assumed representation invariant PhaseInv; the hand-built graph (one fork per node, <=2 chunks, P{PRE,A,C,Q{R{B}}}) and the MRO text of the real-graph fixture (instantiated by the real compiler and runtime inside the engine). Outside: dynamic fork expansion, real processes and job-manager queues.", "DESIGN.md §4 (C02)"),
  "C03": ("Same harness family as C02, plus two consecutive steps with arbitrary job progress and an optional restart in between: no metadata is "
          "handed to execJob twice, a job is submitted only from its empty state and then carries _jobinfo, exactly the chunks _stage_defs lists are "
          "created, a disabled fork submits nothing and is marked disabled; MakeForkIds yields exactly one id per element/key; constant disabling conditions are pruned only when all-false / all-true.",
-         "Trusted: go/ssa, symgo, z3; the OS-boundary and AST/JSON stubs listed in the evidence (each returns an arbitrary outcome within its contract); the assumed representation invariant PhaseInv; the hand-built graph (one fork per node, <=2 chunks, P{PRE,A,C,Q{R{B}}}). Outside: prenode construction from bindings, dynamic fork expansion, real processes and job-manager queues. Static fork enumeration (MakeForkIds on static arrays / maps of 1..3 entries) and the compile-time pruning of constant disabling conditions have their own harnesses.", "DESIGN.md §4 (C03)"),
+         "Trusted: go/ssa, symgo, z3; the OS-boundary and AST/JSON stubs listed in the evidence (each returns an arbitrary outcome within its contract); the assumed representation invariant PhaseInv; the hand-built graph (one fork per node, <=2 chunks, P{PRE,A,C,Q{R{B}}}) and the MRO text of the real-graph fixture (instantiated by the real compiler and runtime inside the engine). Outside: dynamic fork expansion, real processes and job-manager queues. Static fork enumeration (MakeForkIds on static arrays / maps of 1..3 entries) and the compile-time pruning of constant disabling conditions have their own harnesses.", "DESIGN.md §4 (C03)"),
  "C04": ("Decision and bookkeeping of volatile data removal from the real code: partialVdrKill from arbitrary coarse states of the "
          "producer fork and two consumers with arbitrary keep-alive membership (incl. the top-level/retain holder), and the real "
          "vdrKillSome/vdrKill with os.RemoveAll recorded over a symbolic file cache (directory, file inside it, sibling; arbitrary "
@@ -35,7 +35,7 @@ CLAIMED = {
          "complete/disabled and with no top-level hold; only unheld paths (and nothing containing a held path) are removed; fileArgs/"
          "filePostNodes stay consistent; non-volatile stages lose only chunk files of splitting stages; anyOverlap/pathIsInside string kernels.",
          "Trusted: go/ssa, symgo, z3/cvc5, the stubs and fixture listed in the evidence. Outside: on-disk names and symlinks, JSON-derived file "
-         "lists, construction of the keep-alive relation from the AST, the real goroutine schedule, the stage contract.",
+         "lists, keep-alive relations of programs other than the fixture text (structs, arrays of files, mapped calls), the real goroutine schedule, the stage contract.",
          "DESIGN.md §4 (C04)"),
  "C14": ("Partial (accounting and phases): same harnesses as C04. Asserted: the kill report's size and count grow by exactly the cached sizes/"
          "counts of the removed paths (collapsed children included, on top of an existing partial report), every reported path was passed to "
@@ -56,7 +56,7 @@ CLAIMED = {
          "unreadable or invalid outputs, unparseable _stage_defs. Asserted: failure precedence, a failed job fails its fork and node, a failed "
          "node stays on the frontier and the pipestance state is failed never complete, consumers wait and submit nothing, independent stages "
          "are unaffected, invalid outputs write _errors and never _complete; LocalJobManager.Enqueue with the job process replaced by an arbitrary outcome per attempt leaves _errors behind for every failed process, re-runs only spawn failures and at most maxRetries times.",
-         "Trusted: go/ssa, symgo, z3; the OS-boundary and AST/JSON stubs listed in the evidence (each returns an arbitrary outcome within its contract); the assumed representation invariant PhaseInv; the hand-built graph (one fork per node, <=2 chunks, P{PRE,A,C,Q{R{B}}}). Outside: prenode construction from bindings, dynamic fork expansion, real processes and job-manager queues. Also outside: mrjob (how the monitor turns an exit status into _errors), transient-error regexps and mrp attemptRetry, mrp exit code, restart after the fault is removed.", "DESIGN.md §4 (C06)"),
+         "Trusted: go/ssa, symgo, z3; the OS-boundary and AST/JSON stubs listed in the evidence (each returns an arbitrary outcome within its contract); the assumed representation invariant PhaseInv; the hand-built graph (one fork per node, <=2 chunks, P{PRE,A,C,Q{R{B}}}) and the MRO text of the real-graph fixture (instantiated by the real compiler and runtime inside the engine). Outside: dynamic fork expansion, real processes and job-manager queues. Also outside: mrjob (how the monitor turns an exit status into _errors), transient-error regexps and mrp attemptRetry, mrp exit code, restart after the fault is removed.", "DESIGN.md §4 (C06)"),
  "C08": ("Every byte string up to 3 (thorough 4) bytes is run symbolically through the real lexer step, the scanner loop, and the whole "
          "expression parser (yacc tables + grammar actions); 19/20-digit integer tokens and 8-hex-digit \\U escapes get their own harnesses. "
          "Include resolution (parseSource/getIncludes/checkIncludes/merge) runs on 1..3 (4) files with an arbitrary include relation: an error exactly for reachable cycles, no unbounded recursion. "
